@@ -541,3 +541,49 @@ pub fn cmd_outcomes(input: &str, output: &str, n: usize) {
     let nd = rows.iter().filter(|r| r["nondeterministic"].as_bool().unwrap()).count();
     println!("auth-outcomes: {} cases x {} builds, {} disagreements, {} nondeterministic", rows.len(), n, bad, nd);
 }
+
+// ------------------------------------------------------------------ impl -> spec
+/// records authorize() on the programs of a TLC export: one `program` event, the hook's decision
+/// events (usize::MAX rewritten to the spec's AZ) and the final result
+pub fn cmd_record(input: &str, output: &str) {
+    util::quiet_panics();
+    let cases = util::read_ndjson(input);
+    let rows = util::par_map(cases, || (), |_, _i, case| {
+        let prog = &case["prog"];
+        let mut out: Vec<Value> = vec![json!({"ev": "program", "prog": prog})];
+        let blocks: Vec<Value> = prog["blocks"].as_array().unwrap().clone();
+        let r = util::catch(|| -> Result<Vec<Value>, String> {
+            let tok = build_token(&blocks)?;
+            let mut a = build_authorizer(&prog["authz"], &tok, big_limits())?;
+            biscuit_auth::verif::record(true);
+            let r = a.authorize();
+            let evs = biscuit_auth::verif::take();
+            biscuit_auth::verif::record(false);
+            let mut out = Vec::new();
+            for e in evs {
+                // usize::MAX does not fit TLC's integers
+                let e = e.replace("18446744073709551615", "99");
+                let v: Value = serde_json::from_str(&e).map_err(|x| format!("{x}: {e}"))?;
+                if v["ev"] == "decision" {
+                    out.push(v);
+                }
+            }
+            let res = auth_result(&r);
+            if res.get("error").is_some() {
+                out.push(json!({"ev": "error", "error": res["error"]}));
+            } else {
+                out.push(json!({"ev": "result", "ok": res["ok"], "policy": res["policy"], "index": res["index"], "failed": res["failed"]}));
+            }
+            Ok(out)
+        });
+        match r {
+            Ok(Ok(v)) => out.extend(v),
+            Ok(Err(e)) => out.push(json!({"ev": "error", "error": e})),
+            Err(p) => out.push(json!({"ev": "error", "error": format!("PANIC {p}")})),
+        }
+        out
+    });
+    let flat: Vec<Value> = rows.into_iter().flatten().collect();
+    util::write_ndjson(output, &flat);
+    println!("auth-record: {} events", flat.len());
+}
